@@ -18,13 +18,22 @@
    - C01_first_hop_stable: under a side condition that only excludes errno values
      forwarded from another platform, already from the first hop on.
    - C01_wire_shape / C01_no_drift_unknowing as before.
-   Not proved: the first hop keeps the text for the kinds that decode to the
-   opaque stand-ins (stack layer, pkg/errors, fmt.Errorf, user types): this needs
-   the engine theorem "%v = Error()" for the cause (C09) and the faithfulness of
-   extractPrefix; it is decided on every run by the correspondence stream (text
-   tree of model and implementation, hops 1..4) -- listed as missing in the evidence. *)
+   - C01_text_tree_first_hop / C01_text_tree_k_hops (Proofs/TextHop.v): the FIRST hop
+     (hence any number of hops) between knowing processes keeps the Error() text at
+     EVERY node of the cause tree and the tree structure, for every error that
+     satisfies [text_ok] -- all node kinds, including those that come back as the
+     opaque stand-ins (stack layers, pkg/errors, fmt.Errorf, user types, stdlib
+     joins, opaque nodes received earlier); hidden errors unconstrained; strings
+     arbitrary except below a node that prints its cause through the engine, where
+     they must be plain (ASCII, one line).  C01_text_conditions_needed: witnesses that
+     the conditions of [text_ok] are needed (each is a behaviour of the code: the gRPC
+     code OK, the ": " seam of extractPrefix, marker runes escaped in opaque text).
+   Not proved: the library's Join over branches of kinds without exact decoder, and
+   non-ASCII / multi-line text below prefix wrappers (true in the model on the
+   evaluated samples, outside the proved predicate); decided on every run by the
+   correspondence stream (text tree of model and implementation, hops 1..4). *)
 From Errv Require Import Base.Str Model.Err Model.Sem Model.Details Model.Marks Model.Codec
-     Proofs.CodecFacts Proofs.EraseDef Proofs.EraseFacts Proofs.HopIdem Proofs.ExactHop.
+     Proofs.CodecFacts Proofs.EraseDef Proofs.EraseFacts Proofs.HopIdem Proofs.ExactHop Proofs.TextHop.
 
 Theorem C01_wire_shape : forall e, enc_shape (encode e) = err_shape e.
 Proof. exact encode_shape. Qed.
@@ -88,6 +97,42 @@ Theorem C01_first_hop_condition_needed :
   <> erase (fst (decode all_knowing foreign_errno_msg 100%positive)).
 Proof. exact hop_idem_needs_errno_ok. Qed.
 Print Assumptions C01_first_hop_condition_needed.
+
+(* the first hop keeps the text of every node and the structure: all kinds *)
+Theorem C01_text_tree_first_hop : forall e n,
+  text_ok e = true ->
+  text_tree (fst (hop all_knowing e n)) = text_tree e /\
+  error_text (fst (hop all_knowing e n)) = error_text e /\
+  err_shape (fst (hop all_knowing e n)) = err_shape e /\
+  text_ok (fst (hop all_knowing e n)) = true.
+Proof.
+  intros e n H. split; [now apply text_tree_hop|]. destruct (text_hop e n H) as (A & B & C). repeat split; assumption.
+Qed.
+Print Assumptions C01_text_tree_first_hop.
+
+Theorem C01_text_tree_k_hops : forall e k n,
+  text_ok e = true -> text_tree (fst (transfer (List.repeat all_knowing k) e n)) = text_tree e.
+Proof. exact text_tree_transfer. Qed.
+Print Assumptions C01_text_tree_k_hops.
+
+(* [text_tree] is the text at every node, over the structure *)
+Theorem C01_text_tree_meaning : forall e,
+  tt_text (text_tree e) = error_text e /\ tt_shape (text_tree e) = err_shape e.
+Proof. intro e. split; [apply text_tree_root|apply text_tree_shape]. Qed.
+Print Assumptions C01_text_tree_meaning.
+
+Theorem C01_text_conditions_needed :
+  text_changes (Leaf 100%positive (LGrpcStatus 0 (lit "m"))) /\
+  text_changes (Leaf 100%positive (LGogoStatus 0 (lit "m"))) /\
+  text_changes (Wrap 101%positive (WFmtWrap (lit ": x")) (u_leaf (lit "x"))) /\
+  text_changes (Wrap 101%positive (WPrefix (lit "p")) (u_leaf [226; 128; 185; 120])).
+Proof. exact text_ok_conditions_needed. Qed.
+Print Assumptions C01_text_conditions_needed.
+
+(* the predicate is met by errors of every kind without an exact decoder *)
+Theorem C01_text_ok_nonvacuous : forallb text_ok text_ok_samples = true.
+Proof. exact text_ok_samples_ok. Qed.
+Print Assumptions C01_text_ok_nonvacuous.
 
 Example C01_example :
   let e := Wrap 102%positive (WPrefix (lit "outer")) (Wrap 101%positive (WUser UWUnwrap (lit "mid: dle") [])
